@@ -60,10 +60,70 @@ def abort_build(w, desc, rng):
     return what
 
 
+def add_package_only(desc, rng):
+    """a recipe with nothing but a package step (no checkout, no build step: its package step has no inputs),
+    used by a random other recipe"""
+    d = copy.deepcopy(desc)
+    nm = "pko"
+    d["recipes"][nm] = {"packageScript": proj.script_for(nm + "p", "package", [])}
+    users = sorted(n for n, r in d["recipes"].items() if n != nm and "buildScript" in r)
+    if users:
+        u = d["recipes"][rng.choice(users)]
+        u["depends"] = list(u.get("depends", [])) + [nm]
+    return d
+
+
+def first_build_faults(seed, rec, rng):
+    """every script of the project in turn is aborted (failing after partial output, or Bob killed from inside
+    it) during the first build of an empty workspace; then a normal invocation, compared with the clean build.
+    Needs no edit for the fault to fire: in a first build every step runs."""
+    desc = bc.gen_project(rng)
+    if rng.random() < 0.7:
+        desc = add_package_only(desc, rng)
+    rec["final"] = desc
+    clean, ctxt = bc.clean_results(desc, "c05cl")
+    if clean is None:
+        rec["rejected"] = True
+        return rec
+    rec["final_rc"] = 0
+    fs = frags(desc)
+    rng.shuffle(fs)
+    fs.sort(key=lambda f: 0 if f.startswith("pko") else 1)
+    for fr in fs[:6]:
+        wk = core.scratch_dir("c05f")
+        try:
+            proj.write_project(desc, wk)
+            kind = rng.choice(["fail-script", "kill-script"])
+            par = rng.choice([[], [], ["-j", "3"]])
+            rc, txt = bc.bob(wk, ["dev"] + par + bc.roots_of(desc), env={"BOBV_FAIL" if kind == "fail-script" else "BOBV_KILL": fr})
+            ev = {"fault": kind, "frag": fr, "rc": rc, "aborted": rc != 0, "par": " ".join(par), "first_build": True}
+            rec["events"].append(ev); unlock(wk)
+            if rc == 0:
+                continue                      # the fragment belongs to a step that is not part of the build
+            rc2, txt2 = bc.bob(wk, ["dev"] + bc.roots_of(desc))
+            if rc2 != 0:
+                rec["violations"].append(("next-invocation-fails-after-abort", "build after %s in %s failed: %s" % (kind, fr, txt2[-300:]), {"frag": fr}))
+                break
+            res, ws = bc.results(wk)
+            bad = [pkg for pkg, dg in clean.items() if res.get(pkg) != dg]
+            if bad:
+                d = ws.get(bad[0], {}).get("dist")
+                rec["violations"].append(("result-differs-from-clean-after-abort:" + kind,
+                                          "package %s differs from the clean build after %s inside %s during the first build" % (bad[0], kind, fr),
+                                          {"package": bad[0], "frag": fr, "files": bc.list_tree(os.path.join(wk, d)) if d else None,
+                                           "decisions": [x for x in bc.decisions(txt2)][:14]}))
+                break
+        finally:
+            shutil.rmtree(wk, ignore_errors=True)
+    return rec
+
+
 def one_history(args):
     seed, mode = args
     rng = random.Random(seed)
     rec = {"seed": seed, "mode": mode, "events": [], "violations": []}
+    if mode == "first":
+        return first_build_faults(seed, rec, rng)
     w = core.scratch_dir("c05")
     try:
         if mode in ("inval", "f29"):
@@ -163,13 +223,15 @@ def one_history(args):
 def run(ctx):
     ctx.rule = ("generated projects + edit histories; after each edit 1-2 aborted invocations (kill at the k-th state save, kill "
                 "right after a prune, failing script after partial output, SIGKILL from inside a script), stale lock removed, "
-                "then a normal build compared with a clean build; non-trivial when at least one invocation was really aborted")
+                "then a normal build compared with a clean build; plus first builds of an empty workspace aborted inside every script "
+                "in turn (projects with a package-only recipe); non-trivial when at least one invocation was really aborted")
     ctx.assumptions += [
         "scripts are deterministic and restartable by construction (they remove their own partial output first)",
         "kill points are the persistent-state saves and the end of a prune; kills inside os-level file operations are C10's matter",
     ]
     nh = ctx.n(16, 200)
     jobs = [(ctx.rng.randrange(1 << 30), "f29" if i % 8 in (0, 4) else ("inval" if i % 8 in (1, 3, 5) else "random")) for i in range(nh)]
+    jobs += [(ctx.rng.randrange(1 << 30), "first") for i in range(ctx.n(4, 40))]
     with ThreadPoolExecutor(max_workers=6) as ex:
         recs = list(ex.map(one_history, jobs))
     for rec in recs:
